@@ -18,16 +18,16 @@ import (
 const modPath = "github.com/mimecast/dtail"
 
 type Program struct {
-	Repo   string
-	Fset   *token.FileSet
-	Pkgs   []*packages.Package
-	Prog   *ssa.Program
-	SSA    map[string]*ssa.Package // import path -> package
-	PkgOf  map[string]*packages.Package
-	Funcs  map[string]*ssa.Function // "pkgpath::key" -> function
-	Specs  map[string]*PkgSpec      // import path -> spec
-	Dangling []string               // contracts whose function no longer exists
-	LoadMs int64
+	Repo     string
+	Fset     *token.FileSet
+	Pkgs     []*packages.Package
+	Prog     *ssa.Program
+	SSA      map[string]*ssa.Package // import path -> package
+	PkgOf    map[string]*packages.Package
+	Funcs    map[string]*ssa.Function // "pkgpath::key" -> function
+	Specs    map[string]*PkgSpec      // import path -> spec
+	Dangling []string                 // contracts whose function no longer exists
+	LoadMs   int64
 }
 
 func shortPkg(p string) string {
